@@ -28,6 +28,35 @@ Proof. intros c. apply (proj1 (Bool.eqb_true_iff _ _)). exact (D4.by_enum (fun c
 Lemma src_controllers_dispatch : Consts_gen.controllers_cases = [[44; 124; 0]; [40]; [91]; [60]]%N.
 Proof. reflexivity. Qed.
 
+(* the four clause loops (version number, architecture name, profile name, substvar name): the case lists of the source,
+   in the source's order - the byte that is the end of the input, [the negation mark,] the bytes that end the clause with
+   an ERROR (D3.bad_in_*: a separator or a further opening character - be576a6), the bytes that close it.  The first and
+   the error list together are the model's bad_in predicate, byte for byte. *)
+Definition refused (cases : list (list N)) (k : nat) (c : ascii) : bool := mem_code (nth 0 cases [] ++ nth k cases []) c.
+Lemma src_number_loop : (forall c, refused Consts_gen.number_cases 2 c = D3.bad_in_number c) /\ (nth 1 Consts_gen.number_cases [] = [41%N]) /\ (List.length Consts_gen.number_cases = 3%nat).
+Proof.
+  split; [|split; reflexivity]. intros c. apply (proj1 (Bool.eqb_true_iff _ _)).
+  exact (D4.by_enum (fun c => Bool.eqb (refused Consts_gen.number_cases 2 c) (D3.bad_in_number c)) eq_refl c).
+Qed.
+Lemma src_arch_loop : (forall c, refused Consts_gen.arch_cases 2 c = D3.bad_in_arch c) /\ (nth 1 Consts_gen.arch_cases [] = [33%N]) /\ (forall c, mem_code (nth 3 Consts_gen.arch_cases []) c = (D3.eqc c 93 || D3.is_ws c)) /\ (List.length Consts_gen.arch_cases = 4%nat).
+Proof.
+  split; [|split; [reflexivity|split; [|reflexivity]]]; intros c; apply (proj1 (Bool.eqb_true_iff _ _)).
+  - exact (D4.by_enum (fun c => Bool.eqb (refused Consts_gen.arch_cases 2 c) (D3.bad_in_arch c)) eq_refl c).
+  - exact (D4.by_enum (fun c => Bool.eqb (mem_code (nth 3 Consts_gen.arch_cases []) c) (D3.eqc c 93 || D3.is_ws c)) eq_refl c).
+Qed.
+Lemma src_stage_loop : (forall c, refused Consts_gen.stage_cases 2 c = D3.bad_in_stage c) /\ (nth 1 Consts_gen.stage_cases [] = [33%N]) /\ (forall c, mem_code (nth 3 Consts_gen.stage_cases []) c = (D3.eqc c 62 || D3.is_ws c)) /\ (List.length Consts_gen.stage_cases = 4%nat).
+Proof.
+  split; [|split; [reflexivity|split; [|reflexivity]]]; intros c; apply (proj1 (Bool.eqb_true_iff _ _)).
+  - exact (D4.by_enum (fun c => Bool.eqb (refused Consts_gen.stage_cases 2 c) (D3.bad_in_stage c)) eq_refl c).
+  - exact (D4.by_enum (fun c => Bool.eqb (mem_code (nth 3 Consts_gen.stage_cases []) c) (D3.eqc c 62 || D3.is_ws c)) eq_refl c).
+Qed.
+Lemma src_substvar_loop : (forall c, refused Consts_gen.substvar_cases 1 c = D3.bad_in_substvar c) /\ (nth 2 Consts_gen.substvar_cases [] = [125%N]) /\ (forall c, mem_code (nth 3 Consts_gen.substvar_cases []) c = D4.stop3 c) /\ (List.length Consts_gen.substvar_cases = 4%nat).
+Proof.
+  split; [|split; [reflexivity|split; [|reflexivity]]]; intros c; apply (proj1 (Bool.eqb_true_iff _ _)).
+  - exact (D4.by_enum (fun c => Bool.eqb (refused Consts_gen.substvar_cases 1 c) (D3.bad_in_substvar c)) eq_refl c).
+  - exact (D4.by_enum (fun c => Bool.eqb (mem_code (nth 3 Consts_gen.substvar_cases []) c) (D4.stop3 c)) eq_refl c).
+Qed.
+
 (* deb/ar.go: (from, to) of every column of the 60-byte member header - the (offset, width) pairs of AR.parse_entry and of
    the renderer AR2.header - and the two magic bytes at 58 and 59 *)
 Lemma src_ar_header :
